@@ -252,7 +252,11 @@ func NewClassifier(threshold float64) *Classifier {
 // It is an invariant of the classifier that calling Match(Normalize(in)) will
 // return the same results as Match(in).
 func (c *Classifier) Normalize(in []byte) []byte {
-	doc, err := tokenizeStream(bytes.NewReader(in), false, c.dict, true)
+	// Normalization needs every word of the input in a dictionary to write it
+	// back out. Use a private one: adding the input's words to the corpus
+	// dictionary would change how later Match calls tokenize the same words.
+	dict := newDictionary()
+	doc, err := tokenizeStream(bytes.NewReader(in), false, dict, true)
 	if err != nil {
 		panic("should not be reachable, since bytes.NewReader().Read() should never fail")
 	}
@@ -263,12 +267,12 @@ func (c *Classifier) Normalize(in []byte) []byte {
 	case 0:
 		return nil
 	case 1:
-		buf.WriteString(c.dict.getWord(doc.Tokens[0].ID))
+		buf.WriteString(dict.getWord(doc.Tokens[0].ID))
 		return buf.Bytes()
 	}
 
 	prevLine := 1
-	buf.WriteString(c.dict.getWord(doc.Tokens[0].ID))
+	buf.WriteString(dict.getWord(doc.Tokens[0].ID))
 	for _, t := range doc.Tokens[1:] {
 		// Only write out an EOL token that incremented the line
 		if t.Line == prevLine+1 {
@@ -276,7 +280,7 @@ func (c *Classifier) Normalize(in []byte) []byte {
 		}
 
 		// Only write tokens that aren't EOL
-		txt := c.dict.getWord(t.ID)
+		txt := dict.getWord(t.ID)
 
 		if txt != eol {
 			// Only put a space between tokens if the previous token was on the same
